@@ -167,6 +167,84 @@ def aliasing_pass(ctx):
                           key='relations:signature-aliased:squares')
 
 
+def blade_history_pass(ctx):
+    """(a) the algebra's blades are not changed by anything a caller does with them: after an augmented assignment whose left
+    operand is a blade object taken from the algebra (`R = alg.blades.e1; R *= alg.blades.e2`, and the other in-place operator
+    forms) the blade of that name is still the unit coefficient on its own key and the generators still square to the
+    signature; (b) a multivector built from several blade keywords at once - canonical and permuted spellings of either
+    parity mixed, in either keyword order - is the sum of the single-keyword multivectors (each of which the correspondence
+    compares with the model's ordered product)"""
+    import itertools as it
+    from kingdon import Algebra
+    rng = ctx.rng
+    algs = [('R3', lambda: Algebra(3)), ('R21s0', lambda: Algebra(2, 1, start_index=0)), ('3DPGA', lambda: Algebra.fromname('3DPGA')),
+            ('2DPGA', lambda: Algebra.fromname('2DPGA')), ('R421', lambda: Algebra(4, 2, 1)), ('R52', lambda: Algebra(5, 2))]
+    def asdict(mv):
+        return {int(k): v for k, v in zip(mv.keys(), mv.values()) if v != 0}
+    for tag, mk in algs:
+        alg = mk()
+        gens = [n for n in alg.canon2bin if len(n) == 2]
+        names = list(alg.canon2bin)
+        if len(names) > 40:
+            names = gens + rng.sample([n for n in names if len(n) > 2], 20)
+        # (a) in-place operator forms on the algebra's own blade objects
+        for sym in ('*=', '^=', '|=', '+=', '-=', '&=', '@=', '>>=', '/=', '**='):
+            n1 = rng.choice(names[1:])
+            n2 = rng.choice(gens)
+            case = {'algebra': tag, 'statement': f'R = alg.blades[{n1!r}]; R {sym} ' + ('2' if sym == '**=' else f'alg.blades[{n2!r}]')}
+            ctx.case(case, tag='blade-inplace')
+            env = {'R': alg.blades[n1], 'S': alg.blades[n2]}
+            try:
+                exec(f'R {sym} ' + ('2' if sym == '**=' else 'S'), env)
+            except Exception as ex:
+                ctx.count('blade-inplace:raises:' + type(ex).__name__)
+            K = alg.canon2bin[n1]
+            if asdict(alg.blades[n1]) != {K: 1}:
+                ctx.violation('blade-mutated', case, {K: 1}, asdict(alg.blades[n1]), key='blade-mutated')
+                alg = mk()
+                continue
+            for g in gens:
+                j = alg.canon2bin[g]
+                sq = asdict(alg.blades[g] * alg.blades[g])
+                exp = {0: int(alg.signs[j, j])} if alg.signs[j, j] != 0 else {}
+                if sq != exp:
+                    ctx.violation('generator-square', {**case, 'generator': g}, exp, sq, key='blade-mutated:square')
+                    alg = mk()
+                    break
+        # (b) several blade keywords at once
+        sp = spellings(alg, rng, 60)
+        single = {}
+        for s in sp:
+            try:
+                mv = alg.multivector(**{s: 1})
+                single[s] = (int(mv.keys()[0]), mv.values()[0])
+            except Exception:
+                pass
+        cands = list(single)
+        for _ in range(120 if ctx.quick else 1500):
+            k = rng.choice((2, 2, 3, 4))
+            pick = []
+            seen = set()
+            for s in rng.sample(cands, min(len(cands), 12)):
+                if single[s][0] not in seen:
+                    pick.append(s); seen.add(single[s][0])
+                if len(pick) == k:
+                    break
+            if len(pick) < 2:
+                continue
+            vals = {s: rng.choice((2, 3, 5, 7, -4)) for s in pick}
+            case = {'algebra': tag, 'keywords': vals}
+            ctx.case(('multi-keyword', tag, tuple(vals.items())), tag='multi-keyword')
+            exp = {single[s][0]: single[s][1] * v for s, v in vals.items()}
+            try:
+                got = asdict(alg.multivector(**vals))
+            except Exception as ex:
+                got = 'raises ' + type(ex).__name__
+            if got != exp:
+                ctx.violation('spelling-vs-ordered-product', case, exp, got, key='spelling:multi-keyword')
+                break
+
+
 def graded_pass(ctx):
     """graded mode: every basis blade is the unit coefficient on its own key (inside its complete grade), a blade named
     e_ij..k is the ordered product of its generators, blade products follow the table"""
@@ -349,6 +427,7 @@ def run(ctx):
                     ctx.violation('anticommute', {'sig': sig, 'gens': [j, k]}, None, None, key='relations')
     graded_pass(ctx)
     aliasing_pass(ctx)
+    blade_history_pass(ctx)
     out = ctx.drive(lines)
     if out is not None:
         nbad = 0
